@@ -13,6 +13,8 @@ enum Cmd {
     /// any thread) when the call is made: the argument is output-only, so what it held before must not matter
     Fail(usize, bool),
     Read,
+    /// a table call that succeeds, made with the same error variable (kind: which entry point)
+    Succeed(usize),
     Quit,
 }
 
@@ -47,6 +49,30 @@ fn worker(rx: Receiver<Cmd>, tx: Sender<String>) {
                 let mut len: libc::size_t = 0;
                 let r = unsafe { (t.raw_name_from_str)(&mut raw, &mut len, &mut err, n.as_ptr() as *const c_char, n.len()) };
                 LAST_HANDED.store(err as usize, Ordering::SeqCst);
+                tx.send(format!("{}", r)).unwrap();
+            }
+            Ok(Cmd::Succeed(kind)) => {
+                let r = match kind % 4 {
+                    0 => {
+                        let n = b"ok.example".to_vec();
+                        let mut raw = [0u8; 256];
+                        let mut len: libc::size_t = 0;
+                        unsafe { (t.raw_name_from_str)(&mut raw, &mut len, &mut err, n.as_ptr() as *const c_char, n.len()) }
+                    }
+                    k => {
+                        // an insertion into a small packet owned by this call
+                        let p = crate::msg::unhex("123481800001000000000000017100000100 01".replace(' ', "").as_str()).unwrap();
+                        let mut pp = dnssector::DNSSector::new(p).unwrap().parse().unwrap();
+                        let txt = std::ffi::CString::new("a.example. 60 IN A 192.0.2.1").unwrap();
+                        unsafe {
+                            match k {
+                                1 => (t.add_to_answer)(&mut pp, &mut err, txt.as_ptr()),
+                                2 => (t.add_to_nameservers)(&mut pp, &mut err, txt.as_ptr()),
+                                _ => (t.add_to_additional)(&mut pp, &mut err, txt.as_ptr()),
+                            }
+                        }
+                    }
+                };
                 tx.send(format!("{}", r)).unwrap();
             }
             Ok(Cmd::Read) => {
@@ -85,6 +111,10 @@ pub fn run_errslots(words: &[&str]) -> String {
             txs[tid].send(Cmd::Fail(id.parse().unwrap(), k % 2 == 1)).unwrap();
             let r = rxs[tid].recv().unwrap_or("dead".into());
             out.push(format!("t{}f={}", tid, r));
+        } else if let Some(k) = rest.strip_prefix('s') {
+            txs[tid].send(Cmd::Succeed(k.parse().unwrap())).unwrap();
+            let r = rxs[tid].recv().unwrap_or("dead".into());
+            out.push(format!("t{}s={}", tid, r));
         } else {
             txs[tid].send(Cmd::Read).unwrap();
             let r = rxs[tid].recv().unwrap_or("dead".into());
